@@ -599,12 +599,14 @@ def _prepare_czt_basis(N, M, K, shift, alpha, dtype, norm=False):
     # need to populate h piecewise, see Jurling2014 48c, 48d
     # offset between the origin samples (index n//2) of the input and output
     start = -(N // 2 - M // 2) + shift
-    j = np.arange(-start, -start+M, dtype=dtype)  # do not need a "-1" because arange is naturally end-exclusive
+    # arange(float, float) can produce one element too many or too few with a
+    # fractional shift, so offset an integer range instead
+    j = np.arange(M, dtype=dtype) - start
     # j is an index variable
     h[:M] = np.pi * (j * j)
 
     # check for off-by-1 bug
-    j = np.arange(-start-N+1, -start, dtype=dtype)
+    j = np.arange(N-1, dtype=dtype) + (-start-N+1)
     h[K-N+1:K] = np.pi * (j * j)
 
     # order matters, scalar * scalar * array avoids operations on whole array over and over again
